@@ -137,6 +137,39 @@ impl SendChannelUnreliable {
     }
 }
 
+#[cfg(feature = "verif")]
+impl SendChannelUnreliable {
+    /// Canonical read-only dump of the channel state (verification hook).
+    pub fn verif_dump(&self) -> String {
+        let q: Vec<String> = self.unreliable_messages.iter().map(|m| m.len().to_string()).collect();
+        format!(
+            "mem={},max={},sid={},q=[{}]",
+            self.memory_usage_bytes,
+            self.max_memory_usage_bytes,
+            self.sliced_message_id,
+            q.join(";")
+        )
+    }
+}
+
+#[cfg(feature = "verif")]
+impl ReceiveChannelUnreliable {
+    /// Canonical read-only dump of the channel state (verification hook).
+    pub fn verif_dump(&self) -> String {
+        let msgs: Vec<String> = self.messages.iter().map(|m| m.len().to_string()).collect();
+        let sl: Vec<String> = self.slices.iter().map(|(id, c)| format!("{}={}", id, c.verif_dump())).collect();
+        let last: Vec<String> = self.slices_last_received.iter().map(|(id, t)| format!("{}@{}", id, t.as_nanos())).collect();
+        format!(
+            "mem={},max={},msgs=[{}],sl=[{}],last=[{}]",
+            self.memory_usage_bytes,
+            self.max_memory_usage_bytes,
+            msgs.join(";"),
+            sl.join(";"),
+            last.join(";")
+        )
+    }
+}
+
 impl ReceiveChannelUnreliable {
     pub fn new(channel_id: u8, max_memory_usage_bytes: usize) -> Self {
         Self {
